@@ -64,7 +64,8 @@ func rdsNeedsPush(req *model.PushRequest, proxy *model.Proxy) bool {
 	// the service hostname/port/subset (a static string), so it does not change when only
 	// endpoints change. However, if ServiceUpdate is also present, the service definition changed
 	// (ports, labels, etc.) and we need to push RDS.
-	headlessOnly := req.Reason.Has(model.HeadlessEndpointUpdate) && !req.Reason.Has(model.ServiceUpdate)
+	// The same holds for any other reason merged into the request.
+	headlessOnly := req.Reason.Has(model.HeadlessEndpointUpdate) && len(req.Reason) == 1
 	sawServiceEntry := false
 
 	for config := range req.ConfigsUpdated {
